@@ -137,6 +137,27 @@ impl Check for C14 {
                     }
                 }
             });
+            // (the degenerate surfaces follow the loop)
+            // rectangles wholly off the surface whose y does not fit an i32 (every float that large is
+            // integer-valued, but it is not an integer rectangle the fast route can take)
+            {
+                let far: Vec<(f32, f32, f32, f32)> = vec![(1., 3e9, 2., 2.), (1., -3e9, 2., 2.), (0., 2147483648.0, 3., 1.), (0., -2147483904.0, 3., 1.), (1., 1e12, 2., 2.), (-1., 4294967296.0, 2., 3.), (0., -2147483648.0, 3., -2.), (0., 2147483520.0, 3., 200.), (0., -2147483520.0, 3., -200.)];
+                run.bound(&format!("fill_rect beyond the i32 range {}x{}", w, h), format!("{} rectangles with |y| at or beyond 2^31 (the last f32 below it included, with a height that carries the far edge over it) x {} modes x 2 sources x 2 destinations x 2 equivalences", far.len(), modes.len()));
+                run.par(modes.len(), |mi, l| {
+                    for src in srcs.iter().take(2) {
+                        for &(x, y, rw, rh) in &far {
+                            for dst in [Dst::White, Dst::Distinct] {
+                                let o = Opts { mode: modes[mi], alpha: 1.0, aa: true };
+                                let fast = Op::FillRect(x, y, rw, rh, src.clone(), o);
+                                let general = Op::Fill(PathSpec::rect(x, y, rw, rh), src.clone(), o);
+                                let a = Scene { w, h, dst: dst.clone(), ops: vec![fast.clone()] };
+                                one(run, 700 + mi, l, "fill_rect-vs-path-fill", a.clone(), Scene { w, h, dst: dst.clone(), ops: vec![general] }, false);
+                                one(run, 700 + mi, l, "fill_rect-vs-under-covering-clip", a, Scene { w, h, dst: dst.clone(), ops: vec![cover_clip(w, h), fast, Op::PopClip] }, false);
+                            }
+                        }
+                    }
+                });
+            }
 
             // clear(c) with empty clip stack vs under a surface-covering clip; also inside a layer
             run.bound(&format!("clear {}x{}", w, h), "clear(c) for 16 colours x 2 destinations: empty clip stack vs surface-covering clip rect".to_string());
@@ -211,6 +232,29 @@ impl Check for C14 {
         // long strips: spans beyond 1024 / 2048 / 8192 pixels with sources that vary along them
         {
             let ramp = vec![Stop { pos: 0.0, color: 0xffff0000 }, Stop { pos: 0.5, color: 0xff00ff00 }, Stop { pos: 1.0, color: 0x400000ff }];
+        // surfaces with columns but no rows, rows but no columns, neither: every route draws nothing
+        // and returns
+        {
+            let degenerate: Vec<(i32, i32)> = vec![(5, 0), (0, 4), (0, 0), (1, 0)];
+            run.bound("surfaces without rows or columns", format!("{:?} x integer rectangles straddling the origin x {} modes x 2 sources: fill_rect vs path fill vs under a covering clip; clear vs clear under a covering clip", degenerate, modes.len()));
+            run.par(degenerate.len() * modes.len(), |s, l| {
+                let (w, h) = degenerate[s / modes.len()];
+                let mode = modes[s % modes.len()];
+                for src in srcs.iter().take(2) {
+                    for &(x, y, rw, rh) in &[(1, -2, 4, 6), (-2, 1, 6, 2), (-1, -1, 3, 3), (0, 0, 5, 4), (0, 0, 1, 1)] {
+                        let o = Opts { mode, alpha: 1.0, aa: true };
+                        let fast = Op::FillRect(x as f32, y as f32, rw as f32, rh as f32, src.clone(), o);
+                        let general = Op::Fill(PathSpec::rect(x as f32, y as f32, rw as f32, rh as f32), src.clone(), o);
+                        let a = Scene { w, h, dst: Dst::Zero, ops: vec![fast.clone()] };
+                        one(run, 800 + s, l, "fill_rect-vs-path-fill", a.clone(), Scene { w, h, dst: Dst::Zero, ops: vec![general] }, false);
+                        one(run, 800 + s, l, "fill_rect-vs-under-covering-clip", a, Scene { w, h, dst: Dst::Zero, ops: vec![cover_clip(w, h), fast, Op::PopClip] }, false);
+                    }
+                }
+                let a = Scene { w, h, dst: Dst::Zero, ops: vec![Op::Clear(0xff204060)] };
+                let b = Scene { w, h, dst: Dst::Zero, ops: vec![cover_clip(w, h), Op::Clear(0xff204060), Op::PopClip] };
+                one(run, 800 + s, l, "clear-vs-under-covering-clip", a, b, false);
+            });
+        }
             run.bound("long strips", "8200x2 and 2x8200: full-length and far-end integer fill_rects with a linear gradient along the strip, a repeating 251-texel image and a solid, x 3 modes x 2 alphas (vs path fill, vs covering clip); draw_image_at of an 8100-texel image".to_string());
             run.par(2 * 3, |i, l| {
                 let tall = i % 2 == 1;
